@@ -22,7 +22,7 @@ ASSUMPTIONS = ['distance and residual primitives are validated independently by 
 
 @st.composite
 def cases(draw, tier):
-    c = draw(S.curves(2, 30 if tier == 'quick' else 100))
+    c = draw(S.curves(2, 30 if tier == 'quick' else 100, big_n=70 if tier == 'quick' else 200))
     return {'family': c['family'], 'pts': c['pts'], 'distance': draw(st.sampled_from(S.DISTANCES)),
             'order': draw(st.sampled_from(S.ORDERS)), 'np_int': draw(st.booleans())}
 
